@@ -6,8 +6,17 @@ PID = "C07"
 
 
 def setup(w):
+    w.transform("T8 write!(f, \"'{}'\", raw) spelled out as write_char/write_str/write_char (core::fmt argument machinery cut)",
+                "yash-quote/src/lib.rs", """            write!(f, "'{}'", self.raw)""",
+                """            if cfg!(kani) {
+                f.write_char('\\'')?;
+                f.write_str(self.raw)?;
+                f.write_char('\\'')
+            } else {
+                write!(f, "'{}'", self.raw)
+            }""")
     d = w.ext_crate("c07k")
-    return core.KaniSession(w, d, tag="c07k")
+    return core.KaniSession(w, d, tag="c07k", zflags=["stubbing"])
 
 
 def harnesses(tier):
@@ -18,6 +27,15 @@ def harnesses(tier):
                 "every character the shell would not read back literally (per the real lexer's blank/delimiter predicates) is quoted",
                 timeout=3000, mem_gb=20),
         Harness("c07_empty_string", "the empty string", Q[:2], "the empty string is quoted", timeout=600),
+    ] + [
+        Harness("c07_form_w" + ws, "every string of %d character(s) with UTF-8 widths %s, each any Unicode scalar value of that width"
+                % (len(ws), "+".join(ws)), Q + ["<yash_quote::Quoted as core::fmt::Display>::fmt"],
+                "the printed form is read back by a reference word reader as exactly the original string; unquoted output only "
+                "for strings the shell reads literally", timeout=1800 if tier == "quick" else 3600, mem_gb=16, cover_group="c07_form",
+                cbmc_unwind=2 * sum(int(c) for c in ws) + 4,
+                stubs=["<&str as Pattern>::is_contained_in -> naive substring search (same contract)",
+                       "core::slice::memchr::memchr -> naive byte search (same contract)"])
+        for ws in (["1", "2", "3", "11", "12", "21", "111"] if tier == "quick" else ["1", "2", "3", "4", "11", "12", "21", "13", "31", "14", "41", "111", "112", "1111"])
     ]
 
 
@@ -37,7 +55,8 @@ def run(tier, seed, only=None):
         w = core.Workspace("c07")
         sess = setup(w)
         hs = [h for h in harnesses(tier) if not only or h.name in only]
-        res = sess.run_all(hs, jobs=3)
+        hs.sort(key=lambda h: -h.timeout)
+        res = sess.run_all(hs, jobs=10)
         out.extra.update({"kani_build_s": round(sess.build_s, 1), "repo_state": w.repo_state,
                           "injected": w.injected, "transforms": w.transforms})
         out.add_kani_results(res, sess, core.load_known(PID), PID)
